@@ -3,7 +3,7 @@
    generated struct type (model decode = ReadFrom, model encode(decode) = WriteTo, byte-exact). *)
 From Coq Require Import List NArith ZArith Sorted.
 From TarsV Require Import Base.Hex Codec.Wire Codec.Skip Codec.SkipProofs Codec.Prim Codec.PrimProofs Codec.GenCodec Codec.Corr Codec.GenProofs
-  Codec.RoundTrip Codec.RoundTripProofs Codec.NormProofs Codec.WireSpec Codec.WireSpecProofs Codec.RoundTripExamples Gen.Schemas.
+  Codec.RoundTrip Codec.RoundTripProofs Codec.NormProofs Codec.WireSpec Codec.WireSpecProofs Codec.RoundTripExamples Codec.CorrT Gen.Schemas.
 Import ListNotations.
 Open Scope N_scope.
 
